@@ -437,6 +437,9 @@ class Quantity:
     def _np_isfinite(self):
         return np.isfinite(self.si)
 
+    def _np_pad(self, pad_width):
+        return self._from_si(np.pad(self.si, pad_width, mode='constant'), self.unit)
+
     def _np_atleast_1d(self):
         return self._from_si(np.atleast_1d(self.si), self.unit)
 
